@@ -178,9 +178,9 @@ macro_rules! c04_harness {
         }
     };
 }
-c04_harness!(c04_assign_required_leaf, |_k: u8| M::Leaf(any_leaf()));
-c04_harness!(c04_assign_required_tuple, |k: u8| M::Tup(k, any_leaf(), any_leaf()));
-c04_harness!(c04_assign_required_callable, |k: u8| M::Call(k, any_leaf(), any_leaf(), any_leaf()));
+c04_harness!(c04_assign_required_leaf_x, |_k: u8| M::Leaf(any_leaf()));
+c04_harness!(c04_assign_required_tuple_x, |k: u8| M::Tup(k, any_leaf(), any_leaf()));
+c04_harness!(c04_assign_required_callable_x, |k: u8| M::Call(k, any_leaf(), any_leaf(), any_leaf()));
 
 /// common_type on leaves and tuples: symmetric in acceptance, idempotent, the bottom type is neutral, and both
 /// operands are assignable to the result
@@ -189,7 +189,7 @@ c04_harness!(c04_assign_required_callable, |k: u8| M::Call(k, any_leaf(), any_le
 #[kani::stub(std::rc::Rc::drop_slow, leak_rc)]
 #[kani::stub(std::sync::Arc::drop_slow, leak_arc)]
 #[kani::unwind(5)]
-fn c04_common_type() {
+fn c04_common_type_x() {
     let k: u8 = kani::any();
     kani::assume(k <= 2);
     let a = if kani::any() { M::Leaf(any_leaf()) } else { M::Tup(k, any_leaf(), any_leaf()) };
